@@ -20,6 +20,7 @@ STD = {"nlive": 50, "plot": False, "seed": 1, "signal_handling": False, "checkpo
 KWARGS = {
     "std": STD,                                                           # a checkpoint after every iteration
     "aug": dict(STD, flow_proposal_class="augmentedflowproposal", max_iteration=130),
+    "std_pool": dict(STD, poolsize=10, max_iteration=140),                # small pool: checkpoints with an empty pool
     "std_time": dict(STD, checkpoint_on_iteration=False, checkpoint_interval=0.05),    # time-triggered
     "std_chain": dict(STD, checkpoint_interval=10),
     "aug_chain": dict(STD, checkpoint_interval=10, flow_proposal_class="augmentedflowproposal", max_iteration=130),
@@ -140,6 +141,7 @@ def gen_jobs(chk):
         [{"id": "ins_logq", "kind": "snapshots", "sampler": "ins_logq", "select": {"first": 5}},
          {"id": "chain-ins", "kind": "chain", "sampler": "ins_chain", "kills": [450, 300], "pre_evals": 3}],
         [{"id": "chain-std", "kind": "chain", "sampler": "std_chain", "kills": [180, 250], "pre_evals": 3}],
+        [{"id": "std_pool", "kind": "snapshots", "sampler": "std_pool", "select": {"max": 6} if q else {"stride": 6}}],
     ]
     if not q:
         shards += [
@@ -173,40 +175,51 @@ def run_children(chk, shards):
 
 # ---------------------------------------------------------------------------------------------
 def chain_facts(r):
-    """segments (m0, d) of a kill / resume chain, the count finally reported, and failures."""
+    """segments (m0, d) of a kill / resume chain, the count finally reported, and failures.
+    A process resumes from the newest checkpoint on disk, which an earlier process than the one
+    killed last may have written (a process killed before its first checkpoint leaves nothing)."""
     procs = r["procs"]
-    problems, segs = [], []
+    problems = []
+    parent = {}
     for i, p in enumerate(procs):
         if p.get("error"):
-            problems.append(("harness", p["error"][-300:]))
-            return segs, None, problems
+            # an exception in the very first process is the harness's business; in a resumed one it is the property's
+            problems.append(("harness" if i == 0 else "resumed-run-raised", p["error"][-300:]))
+            return [], None, problems
         if p["start"] is None:
             problems.append(("resume-raised", f"process {i} could not be started / resumed (status {p['status']})"))
-            return segs, None, problems
-        m0 = p["start"]["m0"]
-        if i + 1 < len(procs):
-            nxt = procs[i + 1]["start"]
-            if nxt is None:
-                problems.append(("resume-raised", f"process {i + 1} could not resume (status {procs[i + 1]['status']})"))
-                return segs, None, problems
-            if not nxt["resumed"]:
-                if p["checkpoints"]:
-                    problems.append(("not-resumed", f"process {i + 1} started afresh although process {i} had checkpointed"))
-                    return segs, None, problems
-                segs = []       # nothing had been saved: the chain legitimately restarts
-                continue
-            cps = [c for c in p["checkpoints"] if c["meta"]["iteration"] == nxt["iteration"]]
-            if not cps:
-                problems.append(("resumed-unknown-checkpoint", f"process {i + 1} resumed at iteration {nxt['iteration']}, "
-                                                               f"which process {i} never checkpointed"))
-                return segs, None, problems
-            segs.append((m0, cps[-1]["meta"]["calls"] - m0))
-        else:
-            if p["end"] is None:
-                problems.append(("did-not-finish", f"last process ended with status {p['status']}"))
-                return segs, None, problems
-            segs.append((m0, p["end"]["calls"] - m0))
-    return segs, procs[-1]["end"], problems
+            return [], None, problems
+        st = p["start"]
+        if i == 0 or not st["resumed"]:
+            if i and any(q["checkpoints"] for q in procs[:i]):
+                problems.append(("not-resumed", f"process {i} started afresh although a checkpoint had been written"))
+                return [], None, problems
+            parent[i] = None
+            continue
+        found = None
+        for j in range(i - 1, -1, -1):
+            cps = [c for c in procs[j]["checkpoints"] if c["meta"]["iteration"] == st["iteration"]]
+            if cps:
+                found = (j, cps[-1])
+                break
+            if procs[j]["checkpoints"]:
+                break       # a newer checkpoint exists on disk than the one resumed from
+        if found is None:
+            problems.append(("resumed-unknown-checkpoint", f"process {i} resumed at iteration {st['iteration']}, which is "
+                                                           f"not the newest checkpoint on disk"))
+            return [], None, problems
+        parent[i] = found
+    last = len(procs) - 1
+    if procs[last]["end"] is None:
+        problems.append(("did-not-finish", f"last process ended with status {procs[last]['status']}"))
+        return [], None, problems
+    segs = [(procs[last]["start"]["m0"], procs[last]["end"]["calls"] - procs[last]["start"]["m0"])]
+    i = last
+    while parent.get(i) is not None:
+        j, cp = parent[i]
+        segs.insert(0, (procs[j]["start"]["m0"], cp["meta"]["calls"] - procs[j]["start"]["m0"]))
+        i = j
+    return segs, procs[last]["end"], problems
 
 
 def inv_problems(inv, ref):
@@ -281,7 +294,7 @@ def run(chk):
                     seen_cat.add(cat)
                     chk.nontriv((sampler, c["n"]))
                 chk.count(f"{sampler}:" + ("uninformed" if m.get("uninformed") else "flow" if "uninformed" in m else "level")
-                          + (":pool" if (m.get("pool") or 0) > 0 else ""))
+                          + (":pool" if (m.get("pool") or 0) > 0 else ":empty-pool" if "pool" in m and not m.get("uninformed") else ""))
                 a = c["after"]
                 replay = {"job": {"id": r["id"], "kind": "snapshots", "sampler": sampler, "select": {"only": [c["n"]]}},
                           "kwargs": KWARGS[sampler], "meta": m}
@@ -309,7 +322,7 @@ def run(chk):
                     fields.append(cT(cStr(kind), cStr(f), cOpt(None if b is None else did(b)),
                                      cOpt(None if x is None else did(x)), cB(presumed)))
                     field_src.append((sampler, c["n"], role, f, replay))
-                    if b is not None:
+                    if b is not None and not presumed:
                         by_obj.setdefault((role, kind), []).append((f, did(b)))
                 for (role, kind), fl in by_obj.items():
                     cname = obj_class(sampler, role)
@@ -325,13 +338,13 @@ def run(chk):
             chk.nontriv(r["id"])
             segs, end, problems = chain_facts(r)
             sampler = r["id"]
-            replay = {"job": {k: v for k, v in r.items() if k in ("id", "kind")}, "id": r["id"]}
+            creplay = {"job": r["job"], "kwargs": KWARGS[r["job"]["sampler"]]}
             chk.count("chain:processes", len(r["procs"]))
             for what, why in problems:
                 if what == "harness":
                     chk.oblige(f"chain {r['id']} ran", "harness", False, why)
                 else:
-                    chk.fail(f"C12:{r['id'].split('-')[1]}:chain:{what}", f"{r['id']}: {why}", {"chain": r["id"]})
+                    chk.fail(f"C12:{r['id'].split('-')[1]}:chain:{what}", f"{r['id']}: {why}", creplay)
             if end is None:
                 continue
             reported = end["invariants"]["total_evals"]
@@ -339,10 +352,10 @@ def run(chk):
                 chk.fail(f"C12:{r['id'].split('-')[1]}:chain:evaluation-count",
                          f"{r['id']}: total_likelihood_evaluations = {reported}, the processes evaluated "
                          f"{[a + b for a, b in segs]} (sum {sum(a + b for a, b in segs)}) up to the checkpoints resumed from",
-                         {"chain": r["id"], "segs": segs, "reported": reported})
+                         dict(creplay, segs=segs, reported=reported))
             fam = "ins" if "ins" in r["id"] else ("aug" if "aug" in r["id"] else "std")
             for prob in inv_problems(end["invariants"], ref_inv.get(fam)):
-                chk.fail(f"C12:{fam}:chain:invariant", f"{r['id']}: {prob}", {"chain": r["id"], "invariants": end["invariants"]})
+                chk.fail(f"C12:{fam}:chain:invariant", f"{r['id']}: {prob}", dict(creplay, invariants=end["invariants"]))
             chains.append(cT(cL([cT(cZ(a), cZ(b)) for a, b in segs]), cZ(reported)))
             chain_src.append(r["id"])
             chk.sample({"chain": r["id"], "segments_m0_d": segs, "reported": reported, "invariants": end["invariants"]}, limit=8)
@@ -390,12 +403,29 @@ def run(chk):
 def replay(data):
     import subprocess
     rp = data["replay"]
-    if "job" not in rp or rp["job"].get("kind") != "snapshots":
-        # chains are replayed by running the whole check again (the kills are deterministic)
-        print("replay of a chain: run ./check C12 --tier quick (kill points are fixed); data:", json.dumps(rp)[:400])
-        r = subprocess.run([os.path.join(common.VERIF, "check"), PID, "--tier", "quick"], capture_output=True, text=True)
-        print(r.stdout[-1500:])
-        return 1 if "VIOLATION" in r.stdout else 0
+    if rp["job"].get("kind") == "chain":
+        sampler = rp["job"]["sampler"]
+        job = {"root": os.path.join(common.BUILD_ROOT, "C12_replay"), "timeout": 400, "kwargs": {sampler: rp["kwargs"]},
+               "jobs": [rp["job"]]}
+        r = subprocess.run(["timeout", "1200", common.PY, os.path.join(common.VERIF, "harness", "c12_child.py")],
+                           input=json.dumps(job), capture_output=True, text=True, env=common.child_env())
+        try:
+            out = json.loads(r.stdout)["results"][0]
+        except (ValueError, KeyError, IndexError):
+            print("replay child failed:", r.stderr[-1500:])
+            return 2
+        segs, end, problems = chain_facts(out)
+        probs = [f"{a}: {b}" for a, b in problems]
+        if end is not None:
+            reported = end["invariants"]["total_evals"]
+            if reported != sum(a + b for a, b in segs):
+                probs.append(f"total_likelihood_evaluations = {reported}, processes evaluated {segs}")
+            probs += inv_problems(end["invariants"], None)
+        print(json.dumps({"chain": out["id"], "segments_m0_d": segs, "end": end, "problems": probs}, indent=1)[:3000])
+        if probs:
+            print(f"VIOLATION property={PID} replay=(replayed) " + "; ".join(probs)[:300])
+            return 1
+        return 0
     sampler = rp["job"]["sampler"]
     job = {"root": os.path.join(common.BUILD_ROOT, "C12_replay"), "timeout": 400, "kwargs": {sampler: rp["kwargs"]},
            "jobs": [rp["job"]]}
